@@ -372,18 +372,34 @@ end Adeu.Doc
 namespace Adeu.Doc
 open Adeu
 
+theorem nestedProxyWith_skip_frame (s : Sess) (clean : Bool) (start len : Nat) (new : Str) (comment : Option Str) (id : Str)
+    (r : Sess × Bool) (hr : nestedProxyWith s clean start len new comment id = some r) (h : r.2 = false) :
+    r.1.frame = s.frame := by
+  unfold nestedProxyWith at hr
+  simp only at hr
+  split at hr
+  · injection hr with hr
+    subst hr
+    exact applyIndexed_skip_frame _ _ _ _ _ _ _ h
+  · cases hr
+
 theorem nestedProxyAt_skip_frame (s : Sess) (clean : Bool) (start len : Nat) (new : Str) (comment : Option Str)
     (r : Sess × Bool) (hr : nestedProxyAt s clean start len new comment = some r) (h : r.2 = false) :
     r.1.frame = s.frame := by
   unfold nestedProxyAt at hr
-  simp only at hr
   split at hr
-  · split at hr
-    · injection hr with hr
-      subst hr
-      exact applyIndexed_skip_frame _ _ _ _ _ _ _ h
-    · cases hr
+  · exact nestedProxyWith_skip_frame _ _ _ _ _ _ _ r hr h
   · cases hr
+
+theorem nestedInsertAt_skip_frame (s : Sess) (clean : Bool) (start : Nat) (new : Str) (comment : Option Str)
+    (r : Sess × Bool) (hr : nestedInsertAt s clean start new comment = some r) (h : r.2 = false) :
+    r.1.frame = s.frame := by
+  unfold nestedInsertAt at hr
+  split at hr
+  · cases hr
+  · split at hr
+    · exact nestedProxyWith_skip_frame _ _ _ _ _ _ _ r hr h
+    · cases hr
 
 theorem heuristicDirect_skip_frame (s : Sess) (m : HMatch) (e : HEdit) (h : (heuristicDirect s m e).2 = false) :
     (heuristicDirect s m e).1.frame = s.frame := by
@@ -396,7 +412,13 @@ theorem heuristicDirect_skip_frame (s : Sess) (m : HMatch) (e : HEdit) (h : (heu
     split
     · rename_i h2
       simp only [h2, if_true] at h
-      exact applyIndexed_skip_frame _ _ _ _ _ _ _ h
+      split
+      · rename_i r hr
+        simp only [hr] at h
+        exact nestedInsertAt_skip_frame _ _ _ _ _ r hr h
+      · rename_i hr
+        simp only [hr] at h
+        exact applyIndexed_skip_frame _ _ _ _ _ _ _ h
     · rename_i h2
       simp only [h2] at h
       split
@@ -407,7 +429,7 @@ theorem heuristicDirect_skip_frame (s : Sess) (m : HMatch) (e : HEdit) (h : (heu
         · rename_i r hr
           simp only [hr] at h
           split at hr
-          · cases hr
+          · exact nestedInsertAt_skip_frame _ _ _ _ _ r hr h
           · exact nestedProxyAt_skip_frame _ _ _ _ _ _ r hr h
         · rename_i hr
           simp only [hr] at h
